@@ -9,6 +9,7 @@ condition holds, and the chosen thread performs its operation and runs on to its
 That stretch is one *chunk*.  A run is a function of (scenario, choices)."""
 import threading as _threading
 import collections
+import sys as _sys
 
 
 class Abort(BaseException):
@@ -41,6 +42,8 @@ class LThread:
             self.sched.current = self
             self.started = True
             self.sched.on_thread_begin(self)
+            if self.sched.fine is not None:
+                _sys.settrace(self.sched.tracer)
             self.target(*self.args)
         except Abort:
             pass
@@ -71,6 +74,25 @@ class Sched:
         self.hooks_begin = []
         self.hooks_end = []
         self.max_chunks = 20000
+        # fine-grained mode: a seeded RNG; every executed line of the library may become a yield point
+        self.fine = None
+        self.fine_p = 0.15
+        self.fine_files = ("subscription.py", "server.py")
+
+    def tracer(self, frame, event, arg):
+        """sys.settrace hook of fine-grained mode: line-level preemption inside the library's own files (used to
+        exercise the reduction assumption — that lock-protected regions are atomic for everything observable)."""
+        fn = frame.f_code.co_filename
+        if not fn.endswith(self.fine_files) or "lightstreamer_adapter" not in fn:
+            return None
+
+        def local(frame, event, arg):
+            if event == "line" and not self.aborting and self.fine.random() < self.fine_p:
+                me = self.current
+                if me is not None and not me.meta.get("no_preempt"):
+                    self.park(("line", frame.f_code.co_name, frame.f_lineno))
+            return local
+        return local
 
     # ---- called from logical threads
     def event(self, *e):
